@@ -593,6 +593,8 @@ AtPoint(s, p) ==
       [] p = "server.beforeReserve"    -> \E k \in DOMAIN s.iv : s.iv[k].r = "res"
       [] p = "server.beforeFastInvoke" -> \E k \in DOMAIN s.iv : s.iv[k].f = "fast"
       [] p = "watch.flowsCanceled"     -> s.pcW.pc = "w3"
+      [] p = "server.sendResponse"      -> \E c \in DOMAIN s.calls : s.calls[c].api = "response" /\ s.calls[c].st = "issued"
+      [] p = "server.sendErrorResponse" -> \E c \in DOMAIN s.calls : s.calls[c].api = "error" /\ s.calls[c].st = "issued"
       [] p = "init.afterRegisterCount" -> s.pcI.pc = "d2" /\ Len(s.toExec) = Cardinality(s.extFiles)
       [] OTHER -> FALSE
 HookEnterEn(s, p) == p \notin s.held /\ AtPoint(s, p)
@@ -844,7 +846,10 @@ CredsEffect(s, c) ==
     THEN Answer(s, c, [NoRes EXCEPT !.status = 200, !.reason = s.credVal])
     ELSE Answer(s, c, Res(404, ""))
 
-EffectEn(s, c) == c \in DOMAIN s.calls /\ s.calls[c].st = "issued"
+EffectEn(s, c) ==
+    /\ c \in DOMAIN s.calls /\ s.calls[c].st = "issued"
+    /\ (s.calls[c].api = "response" => "server.sendResponse" \notin s.held)
+    /\ (s.calls[c].api = "error" => "server.sendErrorResponse" \notin s.held)
 EffectDo(s, c) ==
     LET call == s.calls[c] IN
     CASE call.api = "next" /\ call.who = "rt" -> RtNextEffect(s, c)
